@@ -4,8 +4,8 @@ CONSTANTS
   Stable = TRUE
   KeySet = {}
   ValSet = {}
-  HashVals = {0, 1, 2, 3, 4, 5, 6, 7, 8}
-  RKeys = {1, 2}
+  HashVals = {0, 2, 4, 5, 8}
+  RKeys = {1}
   ShardCounts = {1, 2, 3, 4}
 INVARIANTS ObsSorted Explainable Complete FastIsRef MemoryOK FirstFree
 PROPERTIES Sticky
